@@ -59,6 +59,7 @@ fn main() {
     let sink: Sink = match stream.as_str() {
         "version" => streams::version::run(&o, &mut rng),
         "time" => streams::time::run(&o, &mut rng),
+        "cup" => streams::cup::run(&o, &mut rng),
         s => { eprintln!("unknown stream {}", s); std::process::exit(2); }
     };
     sink.write(&o.out).expect("write output");
